@@ -183,8 +183,28 @@ def valid_frame(version, node, child, cmd, ack, sub, payload):
     if verdict is None:
         if rule == "text":
             return True  # any text without ';' and trailing blanks is free text
-        return None
+        return _numeric_verdict(rule, payload)
     return verdict
+
+
+_SIMPLE_DEC = re.compile(r"^-?(0|[1-9][0-9]*)(\.[0-9]+)?$")
+_INT_RANGES = {"pct": (0, 100), "int": (None, None), "int1_254": (1, 254), "int0_254": (0, 254), "time": (None, None),
+               "config": (0, 254)}
+_FLOAT_RANGES = {"f100": (0.0, 100.0), "f1": (-1.0, 1.0)}
+
+
+def _numeric_verdict(rule, payload):
+    """Outside the corpus tier A still decides canonical decimal integers for the integer
+    rules and plain decimals for the float rules (no exponent, sign, blanks or
+    underscores: those spellings stay with tier B)."""
+    if rule in _INT_RANGES and canonical_int(payload):
+        lo, hi = _INT_RANGES[rule]
+        val = int(payload)
+        return (lo is None or val >= lo) and (hi is None or val <= hi)
+    if rule in _FLOAT_RANGES and _SIMPLE_DEC.match(payload):
+        lo, hi = _FLOAT_RANGES[rule]
+        return lo <= float(payload) <= hi
+    return None
 
 
 def version_floor(text):
